@@ -115,6 +115,31 @@ def run_two_operators(factors, hermitian, nparams, reqs):
         if not np.array_equal(np.asarray(b), 2 ** (len(factors) - 1) * np.asarray(a)): bad.append(list(r))
     return bad
 
+def run_named(factors, hermitian, nparams, reqs, rnd):
+    """the factors as series in named parameters (as they come out of a symbolic Hamiltonian): the product — also a product of a product — is a series
+    in the same parameters, with the same values"""
+    import sympy
+    names = tuple(sympy.symbols("alpha beta gamma delta", real=True)[:nparams]) if rnd.random() < 0.7 else tuple("xyzw"[:nparams])
+    series = []
+    for f, fac in enumerate(factors):
+        def ev(*idx, fac=fac):
+            v = fac["elems"].get(tuple(int(x) for x in idx), zero)
+            return one if isinstance(v, str) else v
+        series.append(BlockSeries(eval=ev, shape=(fac["rows"], fac["cols"]), n_infinite=nparams, name=f"F{f}", dimension_names=names))
+    prods = [("flat", cauchy_dot_product(*series, hermitian=hermitian))]
+    if len(series) >= 3:
+        prods.append(("product of a product", cauchy_dot_product(cauchy_dot_product(*series[:2]), *series[2:])))
+        prods.append(("product with a product", cauchy_dot_product(series[0], cauchy_dot_product(*series[1:]))))
+    def show(v):
+        if v is zero: return "zero"
+        if v is one: return "one"
+        return "val " + ";".join(f"{int(x)}/1,0/1" for x in np.asarray(v).reshape(-1))
+    res = {}
+    for nm, p in prods:
+        if tuple(p.dimension_names) != names: res[nm] = f"the product is a series in {tuple(p.dimension_names)}, its factors in {names}"; continue
+        res[nm] = [show(p[tuple(r)]) for r in reqs]
+    return res
+
 def main(seed, ncases, driver, out):
     import re
     rnd = random.Random(seed); failures = []; stats = {}; samples = []; evals = 0; distinct = 0; fstats = {}
@@ -145,6 +170,13 @@ def main(seed, ncases, driver, out):
             # breaks the correspondence, it is not yet a failing input of the property — unless an element was requested whose complementary
             # element of the other factor is absent (`zero` at the time), which the property forbids
             failures.append({"case": c, "kind": "request-log-mismatch", "correspondence_only": True, "input": js, "impl": logs, "model": [sorted(l) for l in mlogs]})
+        elif c % 5 == 1 and not any(v.startswith("E:") for v in mvals) and not any(isinstance(v, str) for f in factors for v in f["elems"].values()):
+            # (no identity sentinels: a nested product meets other sums of elements than the flat one, and `one` plus a matrix is a TypeError in either)
+            fstats["named parameters"] = fstats.get("named parameters", 0) + 1
+            try: named = run_named(factors, hermitian, nparams, reqs, rnd)
+            except Exception as e: named = {"raises": type(e).__name__ + ": " + str(e)[:120]}
+            badn = {k: v for k, v in named.items() if v != mvals}
+            if badn: failures.append({"case": c, "kind": "product-of-series-in-named-parameters-differs", "input": js, "which": {k: str(v)[:200] for k, v in badn.items()}, "model": mvals})
         elif len(factors) >= 3 and c % 2 == 0 and not any(v.startswith("E:") for v in mvals) and not any(isinstance(v, str) for f in factors for v in f["elems"].values()):
             # (no identity sentinels among the elements: they are not passed through the operator)
             fstats["two operators on the same series"] = fstats.get("two operators on the same series", 0) + 1
